@@ -742,6 +742,14 @@ func (fr *frame) loadedAssume(n string, T types.Type, st *State) {
 	case *types.Slice:
 		// Go slices have fewer than 2^62 elements (an assumption about run-time values, not about the abstract sort)
 		fc.fact("", "(<= (len_%s %s) 4611686018427387903)", fc.P.SortOf(T), n)
+		if sl, ok := T.Underlying().(*types.Slice); ok {
+			switch sl.Elem().Underlying().(type) {
+			case *types.Pointer, *types.Map:
+				// heap well-formedness: the references held in a slice are allocated
+				ss := fc.P.SortOf(T)
+				fc.fact("", "(forall ((i Int)) (! (=> (and (<= 0 i) (< i (len_%s %s))) (and (>= (at_%s %s i) 0) (< (at_%s %s i) %s))) :pattern ((at_%s %s i))))", ss, n, ss, n, ss, n, st.comp["TOP"], ss, n)
+			}
+		}
 	case *types.Pointer, *types.Map:
 		fc.fact("", "(and (>= %s 0) (< %s %s))", n, n, st.comp["TOP"])
 	case *types.Interface:
